@@ -355,8 +355,8 @@ structure GRel (env : Env) (ctm : Matrix) (ts : TextState) (sc nc : Option Color
   stroke : sc = g.stroke
   ncs : ncs.2 = g.fillN
   scs : scs.2 = g.strokeN
-  fillN : g.fillN = 1 ∨ g.fillN = 3 ∨ g.fillN = 4
-  strokeN : g.strokeN = 1 ∨ g.strokeN = 3 ∨ g.strokeN = 4
+  fillN : 0 < g.fillN
+  strokeN : 0 < g.strokeN
   tc : ts.charspace = g.Tc
   tw : ts.wordspace = g.Tw
   th : ts.scaling = g.Th
@@ -486,25 +486,26 @@ theorem arity_sig (gs : GS) (op : Op) (tys : List Ty) (hsig : sig gs op = some t
     | (simp at hdyn)
 
 theorem doSetColor_illtyped (m : MState) (stroke : Bool) (n : Nat) (args : List Obj)
-    (hn : (if stroke then m.scs.2 else m.ncs.2) = n) (h134 : n = 1 ∨ n = 3 ∨ n = 4)
+    (hn : (if stroke then m.scs.2 else m.ncs.2) = n) (h134 : 0 < n)
     (hlen : args.length ≤ n) (hb : NoBool args) (hw : wellTyped (List.replicate n Ty.num) args = false)
     (hargs : m.argstack = []) :
     doSetColor { m with argstack := pushed args } stroke = m := by
   have hle := pushed_length_le args
   unfold doSetColor
   simp only [hn]
+  have hn0 : ¬ n = 0 := by omega
+  simp only [hn0, if_false]
   by_cases hlt : (pushed args).length < n
-  · simp only [h134, true_and, hlt, if_true]
+  · rw [pop_short n _ (by omega)]
+    have : ¬ (pushed args).length = n := by omega
+    simp only [this, if_false]
     exact mstate_args_nil m hargs
   · have hP : (pushed args).length = args.length := by omega
     have hPa := pushed_eq_of_length args hP
     have hl : args.length = n := by omega
-    rw [hPa]
-    have hnl : ¬ (args.length < n) := by omega
-    simp only [h134, true_and, hnl, if_false, if_true]
-    rw [pop_short n args (by omega)]
+    rw [hPa, pop_short n args (by omega)]
     have hnone := safeFloats_none args hb (by rw [hl]; exact hw)
-    simp only [hnone]
+    simp only [hl, if_true, hnone]
     exact mstate_args_nil m hargs
 
 /-- C05 "operators with missing or ill-typed operands affect nothing but themselves", on the
@@ -513,7 +514,7 @@ theorem illtyped_noop (env : Env) (rf : Form → MState → List Glyph × Bool) 
     (tys : List Ty) (args : List Obj) (hsig : sig gs op = some tys) (hlen : args.length ≤ tys.length)
     (hb : NoBool args) (hw : wellTyped tys args = false) (hargs : m.argstack = [])
     (hn : m.ncs.2 = gs.fillN) (hs : m.scs.2 = gs.strokeN)
-    (hfn : gs.fillN = 1 ∨ gs.fillN = 3 ∨ gs.fillN = 4) (hsn : gs.strokeN = 1 ∨ gs.strokeN = 3 ∨ gs.strokeN = 4) :
+    (hfn : 0 < gs.fillN) (hsn : 0 < gs.strokeN) :
     execTok env rf { m with argstack := m.argstack ++ pushed args } (.op op) = (m, []) := by
   rw [hargs, List.nil_append]
   by_cases hdyn : op ≠ .sc ∧ op ≠ .scn ∧ op ≠ .SC ∧ op ≠ .SCN
@@ -1031,7 +1032,7 @@ theorem sim_g (hR : R env m s) (hw : wellTyped [Ty.num] args = true)
     obtain ⟨rfl, rfl⟩ := happ
     simp only [call, safeFloats, safeFloat, csLookup_gray, Option.getD_some]
     refine ⟨⟨?_, hR.dctm, hR.stack, hR.txt, hR.res, hR.args, hR.fuel⟩, by first | rfl | trivial⟩
-    exact { hR.g with fill := rfl, ncs := rfl, fillN := Or.inl rfl }
+    exact { hR.g with fill := rfl, ncs := rfl, fillN := by simp }
   · simp at happ
 
 theorem sim_G (hR : R env m s) (hw : wellTyped [Ty.num] args = true)
@@ -1044,7 +1045,7 @@ theorem sim_G (hR : R env m s) (hw : wellTyped [Ty.num] args = true)
     obtain ⟨rfl, rfl⟩ := happ
     simp only [call, safeFloats, safeFloat, csLookup_gray, Option.getD_some]
     refine ⟨⟨?_, hR.dctm, hR.stack, hR.txt, hR.res, hR.args, hR.fuel⟩, by first | rfl | trivial⟩
-    exact { hR.g with stroke := rfl, scs := rfl, strokeN := Or.inl rfl }
+    exact { hR.g with stroke := rfl, scs := rfl, strokeN := by simp }
   · simp at happ
 
 theorem sim_rg (hR : R env m s) (hw : wellTyped [Ty.num, Ty.num, Ty.num] args = true)
@@ -1057,7 +1058,7 @@ theorem sim_rg (hR : R env m s) (hw : wellTyped [Ty.num, Ty.num, Ty.num] args = 
     obtain ⟨rfl, rfl⟩ := happ
     simp only [call, safeFloats, safeFloat, csLookup_rgb, Option.getD_some]
     refine ⟨⟨?_, hR.dctm, hR.stack, hR.txt, hR.res, hR.args, hR.fuel⟩, by first | rfl | trivial⟩
-    exact { hR.g with fill := rfl, ncs := rfl, fillN := Or.inr (Or.inl rfl) }
+    exact { hR.g with fill := rfl, ncs := rfl, fillN := by simp }
   · simp at happ
 
 theorem sim_RG (hR : R env m s) (hw : wellTyped [Ty.num, Ty.num, Ty.num] args = true)
@@ -1070,7 +1071,7 @@ theorem sim_RG (hR : R env m s) (hw : wellTyped [Ty.num, Ty.num, Ty.num] args = 
     obtain ⟨rfl, rfl⟩ := happ
     simp only [call, safeFloats, safeFloat, csLookup_rgb, Option.getD_some]
     refine ⟨⟨?_, hR.dctm, hR.stack, hR.txt, hR.res, hR.args, hR.fuel⟩, by first | rfl | trivial⟩
-    exact { hR.g with stroke := rfl, scs := rfl, strokeN := Or.inr (Or.inl rfl) }
+    exact { hR.g with stroke := rfl, scs := rfl, strokeN := by simp }
   · simp at happ
 
 theorem sim_k (hR : R env m s) (hw : wellTyped [Ty.num, Ty.num, Ty.num, Ty.num] args = true)
@@ -1083,7 +1084,7 @@ theorem sim_k (hR : R env m s) (hw : wellTyped [Ty.num, Ty.num, Ty.num, Ty.num] 
     obtain ⟨rfl, rfl⟩ := happ
     simp only [call, safeFloats, safeFloat, csLookup_cmyk, Option.getD_some]
     refine ⟨⟨?_, hR.dctm, hR.stack, hR.txt, hR.res, hR.args, hR.fuel⟩, by first | rfl | trivial⟩
-    exact { hR.g with fill := rfl, ncs := rfl, fillN := Or.inr (Or.inr rfl) }
+    exact { hR.g with fill := rfl, ncs := rfl, fillN := by simp }
   · simp at happ
 
 theorem sim_K (hR : R env m s) (hw : wellTyped [Ty.num, Ty.num, Ty.num, Ty.num] args = true)
@@ -1096,12 +1097,12 @@ theorem sim_K (hR : R env m s) (hw : wellTyped [Ty.num, Ty.num, Ty.num, Ty.num] 
     obtain ⟨rfl, rfl⟩ := happ
     simp only [call, safeFloats, safeFloat, csLookup_cmyk, Option.getD_some]
     refine ⟨⟨?_, hR.dctm, hR.stack, hR.txt, hR.res, hR.args, hR.fuel⟩, by first | rfl | trivial⟩
-    exact { hR.g with stroke := rfl, scs := rfl, strokeN := Or.inr (Or.inr rfl) }
+    exact { hR.g with stroke := rfl, scs := rfl, strokeN := by simp }
   · simp at happ
 
 /-- The device colour spaces in pdfminer's table: components and initial colour as Table 74 says. -/
 theorem deviceCS_model (n : String) (k : Nat) (h : deviceCS n = some k) :
-    csLookup n = some (n, k) ∧ initialColor (n, k) = some (initialColourOf n k) ∧ (k = 1 ∨ k = 3 ∨ k = 4) := by
+    csLookup n = some (n, k) ∧ initialColor (n, k) = some (initialColourOf n k) ∧ 0 < k := by
   unfold deviceCS at h
   split at h <;> simp only [Option.some.injEq, reduceCtorEq] at h <;> subst h
   · exact ⟨by decide, by decide, by decide⟩
@@ -1109,7 +1110,7 @@ theorem deviceCS_model (n : String) (k : Nat) (h : deviceCS n = some k) :
   · exact ⟨by decide, by decide, by decide⟩
 
 /-- `_initial_color` of a space of a known family with 1, 3 or 4 components is Table 74's. -/
-theorem initialColor_family (fam : String) (k : Nat) (hf : knownFamily fam = true) (hk : k = 1 ∨ k = 3 ∨ k = 4) :
+theorem initialColor_family (fam : String) (k : Nat) (hf : knownFamily fam = true) (hk : 0 < k) :
     initialColor (fam, k) = some (initialColourOf fam k) := by
   have hp : fam ≠ "Pattern" := by
     intro h; subst h; revert hf; decide
@@ -1127,7 +1128,7 @@ theorem initialColor_family (fam : String) (k : Nat) (hf : knownFamily fam = tru
 theorem csResolve_model (res : Res) (n : String) :
     (∀ fam k, csResolve res n = .defined fam k →
       ∃ cs : CS, csLookupIn res n = some cs ∧ cs.2 = k ∧ initialColor cs = some (initialColourOf fam k) ∧
-        (k = 1 ∨ k = 3 ∨ k = 4)) ∧
+        0 < k) ∧
     (csResolve res n = .undefined → csLookupIn res n = none) := by
   unfold csResolve csLookupIn
   cases hl : lookupCS n res.cspaces with
@@ -1141,7 +1142,7 @@ theorem csResolve_model (res : Res) (n : String) :
         simp only [CSRes.defined.injEq] at h
         obtain ⟨rfl, rfl⟩ := h
         simp only [Bool.and_eq_true, Bool.or_eq_true, decide_eq_true_eq] at hc
-        exact ⟨(fam0, n0), rfl, rfl, initialColor_family fam0 n0 hc.1 (by omega), by omega⟩
+        exact ⟨(fam0, n0), rfl, rfl, initialColor_family fam0 n0 hc.1 hc.2, hc.2⟩
       · simp at h
     · intro h
       split at h <;> simp at h
@@ -1262,15 +1263,16 @@ theorem numsOf_nums (qs : List Rat) : numsOf (qs.map Obj.num) = qs := by
   | cons q r ih => simp [numsOf, ih]
 
 theorem doSetColor_welltyped (stroke : Bool) (n : Nat) (qs : List Rat)
-    (hn : (if stroke then m.scs.2 else m.ncs.2) = n) (h134 : n = 1 ∨ n = 3 ∨ n = 4) (hl : qs.length = n)
+    (hn : (if stroke then m.scs.2 else m.ncs.2) = n) (h134 : 0 < n) (hl : qs.length = n)
     (hargs : m.argstack = []) :
     doSetColor { m with argstack := qs.map Obj.num } stroke =
       if stroke then { m with scolor := some qs } else { m with ncolor := some qs } := by
   unfold doSetColor
   simp only [hn]
-  have hnl : ¬ ((qs.map Obj.num).length < n) := by simp [hl]
-  simp only [h134, true_and, hnl, if_false, if_true]
+  have hn0 : ¬ n = 0 := by omega
+  simp only [hn0, if_false]
   rw [pop_short n _ (by simp [hl]), safeFloats_nums]
+  simp only [List.length_map, hl, if_true]
   cases stroke <;> simp <;> cases m <;> simp_all
 
 /-- One well-typed instruction of the domain: `execute` and the text model stay related and
@@ -1439,8 +1441,8 @@ theorem parseInstrs_sound (toks : List Tok) :
 
 theorem R_init (ctm : Matrix) (res : Res) : R env (MState.init ctm res) ⟨GS.init ctm, [], none, res⟩ := by
   refine ⟨?_, rfl, trivial, trivial, rfl, rfl, rfl⟩
-  exact { ctm := rfl, fill := rfl, stroke := rfl, ncs := (by decide : csDefault.2 = 1), scs := (by decide : csDefault.2 = 1), fillN := Or.inl rfl,
-          strokeN := Or.inl rfl, tc := rfl, tw := rfl, th := rfl, tl := by simp [MState.init, TextState.init, GS.init],
+  exact { ctm := rfl, fill := rfl, stroke := rfl, ncs := (by decide : csDefault.2 = 1), scs := (by decide : csDefault.2 = 1), fillN := by simp [GS.init],
+          strokeN := by simp [GS.init], tc := rfl, tw := rfl, th := rfl, tl := by simp [MState.init, TextState.init, GS.init],
           tfs := rfl, trise := rfl, font := trivial }
 
 /-- A content stream of the domain run from related initial states. -/
